@@ -235,6 +235,10 @@ _EFFN = {'C01': 'handleCacheHit', 'C02': 'handleCacheHit and HandleValidationRes
 for _pid, _w in _EFFN.items():
     CLAIMS[_pid]['text'] += _EFF.replace('Cxx', _pid) % _w
 
+for _pid in ('C07', 'C19'):
+    CLAIMS[_pid]['text'] += (' %s_source_invalidation: InvalidateCache and invalidateLocationHeaders (which keys are deleted, in which order, after which reads of the store, none twice) '
+                             'are re-derived from internal/cacheinvalidator.go by translate/inval.go before every build and proved equal up to peq to invalidate_cache (Proofs/TieInval.v).' % _pid)
+
 for _pid in ('C01', 'C02', 'C09', 'C11', 'C13', 'C18'):
     CLAIMS[_pid]['text'] += (' %s_source_freshness: CalculateFreshness, calculateCurrentAge and heuristicFreshness (precedence of max-age / Expires / heuristics, request max-age / min-fresh / max-stale, '
                              'saturating sums, wrapping multiplication, truncating division) are re-derived from internal/freshness.go before every build and proved equal to the model for all inputs.' % _pid)
